@@ -16,7 +16,7 @@ use std::sync::atomic::AtomicUsize;
 use std::sync::atomic::Ordering::Relaxed;
 use std::thread::yield_now;
 
-use crate::countedindex::{past, rm_tag};
+use crate::countedindex::{past, rm_tag, INITIAL_QUEUE_FLAG};
 extern crate parking_lot;
 
 pub const DEFAULT_YIELD_SPINS: usize = 50;
@@ -31,7 +31,11 @@ pub fn load_tagless(val: &AtomicUsize) -> usize {
 #[inline(always)]
 pub fn check(seq: usize, at: &AtomicUsize, wc: &AtomicUsize) -> bool {
     let cur_count = load_tagless(at);
-    wc.load(Relaxed) == 0 || seq == cur_count || past(seq, cur_count).1
+    // A slot that has never been written still carries the initial flag; it is
+    // not "past" the awaited sequence, it simply has no value yet.
+    wc.load(Relaxed) == 0
+        || seq == cur_count
+        || (cur_count != rm_tag(INITIAL_QUEUE_FLAG) && past(seq, cur_count).1)
 
     // if wc.load(Relaxed) == 0 || seq == cur_count || past(seq, cur_count).1 {
     //     true
